@@ -358,4 +358,33 @@ def c01_e(ctx: Ctx):
     return res
 
 
-RULES = [c01_a, c01_b, c01_c, c01_d, c01_e]
+@rule("C01-f")
+def c01_f(ctx: Ctx):
+    """calc_id is a pure function of the JSON value: not memoised (cache keys compare 1 == 1.0 == True), and the command line reads a state point with json.loads of the text as given."""
+    from .lints import no_memoisation
+    R = "C01-f"
+    out = no_memoisation(ctx, R, [CALC], "memo keys compare with ==, so 1, 1.0 and True (0, 0.0, False) share an entry and the id depends on which spelling was hashed first in the process")
+    # text -> JSON at the command line and in the filter parser: json.loads of the unmodified text
+    for q in ("signac.filterparse:_parse_json", "signac.__main__:main_job"):
+        fi = ctx.prog.funcs.get(q)
+        if fi is None:
+            out.append(ctx.inc(R, None, None, f"{q} not found", construct=q + "|json-text"))
+            continue
+        loads = [c for c in body_nodes(fi) if isinstance(c, ast.Call) and (_ext(ctx, fi, c) in ("json.loads",) or "signac.filterparse:_parse_json" in common.targets_of(ctx, fi, c))]
+        if not loads:
+            out.append(ctx.inc(R, fi, fi.node, "no json.loads / _parse_json call", construct=q + "|json-text"))
+            continue
+        for c in loads:
+            a = c.args[0] if c.args else None
+            src = common.inline_at(ctx, fi, a, c) if a is not None else None
+            transformed = src is not None and any(isinstance(x, ast.Call) and (dotted(x.func) or "").split(".")[-1] in ("normalize", "lower", "upper", "casefold", "strip", "replace", "translate", "encode", "decode", "sub")
+                                                  for x in ast.walk(src))
+            if transformed:
+                out.append(ctx.viol(R, fi, c, f"the JSON text is transformed before parsing ({canon(src)[:60]}): a state point given as text hashes to a different id than the same value given as a mapping",
+                                    construct=q + "|json-text"))
+            else:
+                out.append(ctx.ok(R, fi, c, "JSON text is parsed as given", construct=q + "|json-text"))
+    return out
+
+
+RULES = [c01_a, c01_b, c01_c, c01_d, c01_e, c01_f]
